@@ -397,7 +397,7 @@ printf("\n");
               // This seems kind of invalid, but some other assembler allows
               // the bit address to be defined as the binary version of the
               // address rather than address.bit for at least clr and setb.
-              if (operands[r].type != OPERAND_NUM) { r = 4; }
+              if (operands[r].type != OPERAND_NUM) { r = 4; break; }
             }
 
             if (operands[r].value < 0 || operands[r].value > 255) { r = 4; }
